@@ -26,7 +26,7 @@ import (
 func init() { commands["tree"] = treeMain }
 
 var treeKeys = []string{"a", "b", "c", "d"}
-var treeFilters = []string{"null", "all", "lx1", "lx0", "fnx0", "nlx1", "nsa", "anx0", "anx1"}
+var treeFilters = []string{"null", "all", "lx1", "lx0", "fnx0", "nlx1", "nsa", "anx0", "anx1", "nsp1", "nsp2"}
 
 type tnode struct {
 	id      int
@@ -670,7 +670,26 @@ func (s *treeScn) randomRefilter(rng *rand.Rand, pct int) {
 	if err != nil {
 		es = err.Error()
 	}
-	s.tr.LogRaw("drv", "ret.refilter", fmt.Sprintf(`"node":%d,"err":%q`, n.id, es))
+	s.tr.LogRaw("drv", "ret.refilter", fmt.Sprintf(`"node":%d,"err":%q,"stage":%q,"filter":%q`, n.id, es, st, fname))
+	prev := n.fname
+	n.fname = fname
+	if err == nil && prev != "" && rng.Intn(3) == 0 {
+		// straight back to the previous filter, while the node may still be busy with the first request
+		s.tr.LogRaw("drv", "call.refilter", fmt.Sprintf(`"node":%d,"stage":%q,"filter":%q`, n.id, st, prev))
+		f2 := s.mkFilter(prev)
+		var err2 error
+		if !s.guarded("Refilter", n.id, func() { err2 = n.refil.Refilter(f2) }) {
+			return
+		}
+		es2 := ""
+		if err2 != nil {
+			es2 = err2.Error()
+		}
+		s.tr.LogRaw("drv", "ret.refilter", fmt.Sprintf(`"node":%d,"err":%q,"stage":%q,"filter":%q`, n.id, es2, st, prev))
+		if err2 == nil {
+			n.fname = prev
+		}
+	}
 }
 
 func (s *treeScn) randomClose(rng *rand.Rand) {
